@@ -1413,7 +1413,12 @@ func (m *RadioTap) DecodeFromBytes(data []byte, df gopacket.DecodeFeedback) erro
 			headlen += 2
 		}
 		if headlen%4 == 2 {
-			payload = append(payload[:headlen], payload[headlen+2:len(payload)]...)
+			// The two padding bytes are taken out in a copy: payload is still a
+			// window onto the packet data, which with NoCopy is the caller's own
+			// buffer and must not be written to.
+			unpadded := make([]byte, 0, len(payload)-2)
+			unpadded = append(unpadded, payload[:headlen]...)
+			payload = append(unpadded, payload[headlen+2:]...)
 		}
 	}
 
